@@ -2177,6 +2177,18 @@ func (s *Store) deleteServiceTxn(tx WriteTxn, idx uint64, nodeName, serviceID st
 		}
 	}
 
+	// The virtual IP of a sidecar proxy's destination is kept for as long as a proxy advertises
+	// it; release it with the last proxy if nothing else needs it any more.
+	if svc.ServiceKind == structs.ServiceKindConnectProxy && svc.ServiceProxy.DestinationServiceName != "" {
+		dest := structs.PeeredServiceName{
+			Peer:        svc.PeerName,
+			ServiceName: structs.NewServiceName(svc.ServiceProxy.DestinationServiceName, &svc.EnterpriseMeta),
+		}
+		if err := freeServiceVirtualIP(tx, idx, dest, nil); err != nil {
+			return fmt.Errorf("failed to clean up virtual IP for %q: %v", dest.String(), err)
+		}
+	}
+
 	return nil
 }
 
@@ -2208,6 +2220,17 @@ func freeServiceVirtualIP(
 		}
 	} else {
 		return fmt.Errorf("failed service lookup for %q: %s", psn.ServiceName.Name, err)
+	}
+
+	// Don't deregister the virtual IP while a sidecar proxy of this service still exists: the
+	// proxy advertises the address in its tagged addresses, whatever happened to the instances
+	// of the service itself.
+	if remainingProxy, err := tx.First(tableServices, indexConnect, q); err == nil {
+		if remainingProxy != nil {
+			return nil
+		}
+	} else {
+		return fmt.Errorf("failed connect service lookup for %q: %s", psn.ServiceName.Name, err)
 	}
 
 	// Don't deregister the virtual IP if at least one resolver/router/splitter config entry still
